@@ -72,28 +72,16 @@ pub uninterp spec fn dur_add(a: Duration, b: Duration) -> Duration;
 pub uninterp spec fn dur_sub_ok(a: Duration, b: Duration) -> bool;
 pub uninterp spec fn dur_sub(a: Duration, b: Duration) -> Duration;
 
-/// operand pairs that `+` accepts besides numbers: string/bytes/list concatenation, timestamp/duration arithmetic
-pub open spec fn add_other_ok(a: CelValue, b: CelValue, r: CelValue) -> bool {
-    match (a, b) {
-        (CelValue::String(x), CelValue::String(y)) => r is String && r->String_0@ == x@ + y@,
-        (CelValue::Bytes(x), CelValue::Bytes(y)) => r is Bytes && r->Bytes_0@ == x@ + y@,
-        (CelValue::List(x), CelValue::List(y)) => r is List && r->List_0@ =~= x@ + y@,
-        (CelValue::TimeStamp(t), CelValue::Duration(d)) => if ts_add_ok(t, d) { r == CelValue::TimeStamp(ts_add(t, d)) } else { r is Err },
-        (CelValue::Duration(d), CelValue::TimeStamp(t)) => if ts_add_ok(t, d) { r == CelValue::TimeStamp(ts_add(t, d)) } else { r is Err },
-        (CelValue::Duration(x), CelValue::Duration(y)) => if dur_add_ok(x, y) { r == CelValue::Duration(dur_add(x, y)) } else { r is Err },
-        _ => r is Err,
-    }
-}
-
-pub open spec fn sub_other_ok(a: CelValue, b: CelValue, r: CelValue) -> bool {
-    match (a, b) {
-        (CelValue::TimeStamp(t), CelValue::Duration(d)) => if ts_sub_ok(t, d) { r == CelValue::TimeStamp(ts_sub(t, d)) } else { r is Err },
-        (CelValue::TimeStamp(x), CelValue::TimeStamp(y)) => r == CelValue::Duration(ts_diff(x, y)),
-        (CelValue::Duration(x), CelValue::Duration(y)) => if dur_sub_ok(x, y) { r == CelValue::Duration(dur_sub(x, y)) } else { r is Err },
-        // duration - timestamp is accepted by the code (timestamp - duration); the statement lists timestamp/duration arithmetic
-        // as allowed without fixing this direction, so only totality and the result kind are required here
-        (CelValue::Duration(d), CelValue::TimeStamp(t)) => r is Err || r is TimeStamp,
-        _ => r is Err,
+pub open spec fn pair_is(a: CelValue, b: CelValue, ka: int, kb: int) -> bool { vkind(a) == ka && vkind(b) == kb }
+/// 1 string, 2 bytes, 3 list, 4 timestamp, 5 duration, 0 anything else
+pub open spec fn vkind(v: CelValue) -> int {
+    match v {
+        CelValue::String(_) => 1,
+        CelValue::Bytes(_) => 2,
+        CelValue::List(_) => 3,
+        CelValue::TimeStamp(_) => 4,
+        CelValue::Duration(_) => 5,
+        _ => 0,
     }
 }
 '''
@@ -197,29 +185,54 @@ ERR_PROP = A(
 )
 
 
+ADD_OTHER = [
+    ('concat_string', 'pair_is({a}, {b}, 1, 1) ==> {r} is String && {r}->String_0@ == {a}->String_0@ + {b}->String_0@', ('C06', 'C01')),
+    ('concat_bytes', 'pair_is({a}, {b}, 2, 2) ==> {r} is Bytes && {r}->Bytes_0@ == {a}->Bytes_0@ + {b}->Bytes_0@', ('C06', 'C01')),
+    ('concat_list', 'pair_is({a}, {b}, 3, 3) ==> {r} is List && {r}->List_0@ =~= {a}->List_0@ + {b}->List_0@', ('C06', 'C01')),
+    ('timestamp_plus_duration', 'pair_is({a}, {b}, 4, 5) ==> (if ts_add_ok({a}->TimeStamp_0, {b}->Duration_0) {{ {r} == CelValue::TimeStamp(ts_add({a}->TimeStamp_0, {b}->Duration_0)) }} else {{ {r} is Err }})', ('C16', 'C01')),
+    ('duration_plus_timestamp', 'pair_is({a}, {b}, 5, 4) ==> (if ts_add_ok({b}->TimeStamp_0, {a}->Duration_0) {{ {r} == CelValue::TimeStamp(ts_add({b}->TimeStamp_0, {a}->Duration_0)) }} else {{ {r} is Err }})', ('C16', 'C01')),
+    ('duration_plus_duration', 'pair_is({a}, {b}, 5, 5) ==> (if dur_add_ok({a}->Duration_0, {b}->Duration_0) {{ {r} == CelValue::Duration(dur_add({a}->Duration_0, {b}->Duration_0)) }} else {{ {r} is Err }})', ('C16', 'C01')),
+    ('every_other_pair_is_an_error', 'arith_kind({a}, {b}) is Other && !pair_is({a}, {b}, 1, 1) && !pair_is({a}, {b}, 2, 2) && !pair_is({a}, {b}, 3, 3) && !pair_is({a}, {b}, 4, 5) && !pair_is({a}, {b}, 5, 4) && !pair_is({a}, {b}, 5, 5) ==> {r} is Err', ('C03', 'C01')),
+]
+SUB_OTHER = [
+    ('timestamp_minus_duration', 'pair_is({a}, {b}, 4, 5) ==> (if ts_sub_ok({a}->TimeStamp_0, {b}->Duration_0) {{ {r} == CelValue::TimeStamp(ts_sub({a}->TimeStamp_0, {b}->Duration_0)) }} else {{ {r} is Err }})', ('C16', 'C01')),
+    ('timestamp_minus_timestamp', 'pair_is({a}, {b}, 4, 4) ==> {r} == CelValue::Duration(ts_diff({a}->TimeStamp_0, {b}->TimeStamp_0))', ('C16', 'C01')),
+    ('duration_minus_duration', 'pair_is({a}, {b}, 5, 5) ==> (if dur_sub_ok({a}->Duration_0, {b}->Duration_0) {{ {r} == CelValue::Duration(dur_sub({a}->Duration_0, {b}->Duration_0)) }} else {{ {r} is Err }})', ('C16', 'C01')),
+    # `duration - timestamp` is accepted by the code (it computes timestamp - duration); the statement allows timestamp/duration
+    # arithmetic without fixing this direction, so only totality and the result kind are required
+    ('duration_minus_timestamp_total', 'pair_is({a}, {b}, 5, 4) ==> ({r} is Err || {r} is TimeStamp)', ('C16', 'C01')),
+    ('every_other_pair_is_an_error', 'arith_kind({a}, {b}) is Other && !pair_is({a}, {b}, 4, 5) && !pair_is({a}, {b}, 4, 4) && !pair_is({a}, {b}, 5, 5) && !pair_is({a}, {b}, 5, 4) ==> {r} is Err', ('C03', 'C01')),
+]
+ONLY_NUMBERS = [('every_other_pair_is_an_error', 'arith_kind({a}, {b}) is Other ==> {r} is Err', ('C03', 'C01'))]
+
+
 def binop(op, name, other):
-    """contract for impl <Op> for CelValue :: <name>; `other` = clause for non-numeric operand pairs"""
-    def clauses(a, b, r):
-        return [
-            ('int_result_exact_or_error', f'arith_kind({a}, {b}) is I ==> arith_int_ok(Op::{op}, {a}, {b}, {r})'),
-            ('uint_result_exact_or_error', f'arith_kind({a}, {b}) is U ==> arith_uint_ok(Op::{op}, {a}, {b}, {r})'),
-            ('double_result', f'arith_kind({a}, {b}) is F ==> ' + (f'{r} is Err' if op == 'Rem' else f'{r} is Float')),
-            ('other_operands', f'arith_kind({a}, {b}) is Other ==> ' + other.format(a=a, b=b, r=r)),
-        ]
+    """contract for impl <Op> for CelValue :: <name>; `other` = clauses for non-numeric operand pairs"""
+    N = ('C03', 'C01')
+
+    def clauses(a, b, r, guard=''):
+        cl = [
+            ('int_result_exact_or_error', f'arith_kind({a}, {b}) is I ==> arith_int_ok(Op::{op}, {a}, {b}, {r})', N),
+            ('uint_result_exact_or_error', f'arith_kind({a}, {b}) is U ==> arith_uint_ok(Op::{op}, {a}, {b}, {r})', N),
+            ('double_result', f'arith_kind({a}, {b}) is F ==> ' + (f'{r} is Err' if op == 'Rem' else f'{r} is Float'), N),
+        ] + [(n, t.format(a=a, b=b, r=r), pp) for (n, t, pp) in other]
+        if guard:
+            cl = [(n, f'{guard} ==> ({t})', pp) for (n, t, pp) in cl]
+        return cl
     arm_rw = {}
     if name in FLOAT_RW:
         arm_rw = {'CelValue::Float(val1)': [(FLOAT_RW[name][0], FLOAT_RW[name][1], R2F)]}
     return A(
         ret='r',
-        ensures=[('left_error_wins', 'self is Err ==> r == self'),
-                 ('right_error', '!(self is Err) && rhs_val is Err ==> r == rhs_val')]
-        + [(n, f'!(self is Err) && !(rhs_val is Err) ==> ({t})') for n, t in clauses('self', 'rhs_val', 'r')],
+        ensures=[('left_error_wins', 'self is Err ==> r == self', N),
+                 ('right_error', '!(self is Err) && rhs_val is Err ==> r == rhs_val', N)]
+        + clauses('self', 'rhs_val', 'r', guard='!(self is Err) && !(rhs_val is Err)'),
         closures={0: dict(types=['CelValue', 'CelValue'], ret='res: CelValue',
                           requires=[('operands_not_err', '!(lhs_val is Err) && !(rhs_val is Err)')],
                           ensures=clauses('lhs_val', 'rhs_val', 'res'),
                           body_begin=('proof { if int_val(rhs_val) != 0 { lemma_trunc_bound(int_val(lhs_val), int_val(rhs_val)); } }' if name in ('div', 'rem') else None))},
         arm_rewrites=arm_rw,
-        props=('C03', 'C01') + (('C16', 'C06') if name in ('add', 'sub') else ()),
+        props=('C03', 'C01') + (('C16', 'C06') if name == 'add' else ()) + (('C16',) if name == 'sub' else ()),
     )
 
 
@@ -294,11 +307,11 @@ impl vstd::std_specs::convert::FromSpecImpl<bool> for CelValue { open spec fn ob
     U.extract(C.CV, 'impl CelValueDyn for CelValue', fns={
         'as_type': A(stub=True, note='only feeds error messages'),
     })
-    U.extract(C.CV, 'impl Add for CelValue', fns={'add': binop('Add', 'add', 'add_other_ok({a}, {b}, {r})')})
-    U.extract(C.CV, 'impl Sub for CelValue', fns={'sub': binop('Sub', 'sub', 'sub_other_ok({a}, {b}, {r})')})
-    U.extract(C.CV, 'impl Mul for CelValue', fns={'mul': binop('Mul', 'mul', '{r} is Err')})
-    U.extract(C.CV, 'impl Div for CelValue', fns={'div': binop('Div', 'div', '{r} is Err')})
-    U.extract(C.CV, 'impl Rem for CelValue', fns={'rem': binop('Rem', 'rem', '{r} is Err')})
+    U.extract(C.CV, 'impl Add for CelValue', fns={'add': binop('Add', 'add', ADD_OTHER)})
+    U.extract(C.CV, 'impl Sub for CelValue', fns={'sub': binop('Sub', 'sub', SUB_OTHER)})
+    U.extract(C.CV, 'impl Mul for CelValue', fns={'mul': binop('Mul', 'mul', ONLY_NUMBERS)})
+    U.extract(C.CV, 'impl Div for CelValue', fns={'div': binop('Div', 'div', ONLY_NUMBERS)})
+    U.extract(C.CV, 'impl Rem for CelValue', fns={'rem': binop('Rem', 'rem', ONLY_NUMBERS)})
     U.extract(C.CV, 'impl Neg for CelValue', fns={'neg': A(
         ret='r',
         ensures=[
